@@ -72,6 +72,17 @@ Start(cfg, debug, flush, works, ret) ==
                     /\ running' = FALSE /\ handles' = j.handles /\ threads' = j.threads /\ badjoins' = j.bad
                     /\ glob' = IF "StickyGlobals" \in LQ THEN g1 ELSE Glob0
 
+(* bidib_start_serial with a device that cannot be opened (dev = "missing") or without a device (dev = "null"):
+   "null" is refused before anything happens; otherwise the configuration is read, the port cannot be initialised (or the
+   configuration is refused), no thread is created and the library stops again *)
+StartSerial(dev, cfg, ret) ==
+    IF dev = "null" \/ cfg = "none" THEN /\ ret = 1 /\ UNCHANGED lvars
+    ELSE IF running THEN /\ ret = 0 /\ UNCHANGED lvars
+    ELSE LET j == JoinAll(handles, threads, badjoins) IN          \* the stop of a start that created no thread
+         /\ ret = 1 /\ sess' = sess + 1
+         /\ running' = FALSE /\ handles' = j.handles /\ threads' = j.threads /\ badjoins' = j.bad
+         /\ glob' = IF "StickyGlobals" \in LQ THEN glob ELSE Glob0
+
 Stop == IF ~running THEN UNCHANGED lvars                           \* stop while stopped does nothing
         ELSE LET j == JoinAll(handles, threads, badjoins) IN
              /\ running' = FALSE /\ handles' = j.handles /\ threads' = j.threads /\ badjoins' = j.bad
